@@ -461,6 +461,11 @@ func checkParam(c paramCase, o *kit.Obs) error {
 		f := func(g model3d.GeoCoord) float64 {
 			return c.P[0] * (1 + c.P[1]*math.Sin(float64(c.N[1])*g.Lon+c.P[3])*math.Cos(g.Lat) + c.P[2]*math.Cos(float64(c.N[2])*g.Lat)*math.Cos(g.Lat))
 		}
+		if c.N[1] == 1 {
+			// documented default: "If radius is nil, a radius of 1 is used."
+			o.Label("polar:nil-radius")
+			return checkClosed3(m3.Tris(model3d.NewMeshPolar(nil, c.N[0])), []kit.V3{{0, 0, 0}, {0.01, 0.02, -0.01}}, []kit.V3{{10, 0, 0}, {0, -10, 1}})
+		}
 		tris := m3.Tris(model3d.NewMeshPolar(f, c.N[0]))
 		return checkClosed3(tris, []kit.V3{{0, 0, 0}, {0.01, 0.02, -0.01}}, []kit.V3{{10, 0, 0}, {0, -10, 1}})
 	case "polar2d":
@@ -570,7 +575,12 @@ func checkPolytope(c polyCase, o *kit.Obs) error {
 	for _, d := range c.Dups {
 		l := p[d[0]%len(p)]
 		f := math.Pow(10, float64(d[1]))
-		p = append(p, &model3d.LinearConstraint{Normal: l.Normal.Scale(f), Max: l.Max * f})
+		// anywhere in the list, not only at its end (lists of two polytopes appended, a constraint restated later)
+		dup := &model3d.LinearConstraint{Normal: l.Normal.Scale(f), Max: l.Max * f}
+		at := (d[0]*7 + 3) % (len(p) + 1)
+		p = append(p, nil)
+		copy(p[at+1:], p[at:])
+		p[at] = dup
 		o.Label("duplicated-constraint")
 	}
 	tris := m3.Tris(p.Mesh())
@@ -884,7 +894,7 @@ func TestProp(t *testing.T) {
 		}, Check: checkCSG2, Fresh: true},
 		kit.Enum[gen.Lattice2]{Name: "C01/bitmap/enum-4x4", N: 65536, QuickStride: 2, At: func(i int) gen.Lattice2 { return gen.Lattice2FromUint(4, 4, uint64(i)) }, Check: checkBitmap},
 		kit.Clause[gen.Lattice2]{Name: "C01/bitmap/random", Quick: 1500, Thorough: 40000, Gen: func(t *rapid.T) gen.Lattice2 { return gen.Lattice2Gen(t, 9, "bitmap") }, Check: checkBitmap},
-		kit.Clause[paramCase]{Name: "C01/gen/parametric", Quick: 600, Thorough: 15000, Gen: genParam, Check: checkParam},
+		kit.Clause[paramCase]{Name: "C01/gen/parametric", Quick: 3000, Thorough: 30000, Gen: genParam, Check: checkParam},
 		kit.Clause[polyCase]{Name: "C01/gen/polytope", Quick: 3000, Thorough: 60000, Gen: genPolytope, Check: checkPolytope},
 		kit.Clause[poly2Case]{Name: "C01/gen/polytope2d", Quick: 3000, Thorough: 60000, Gen: genPoly2, Check: checkPoly2},
 		kit.Clause[rectSetCase]{Name: "C01/gen/rectset", Quick: 6000, Thorough: 120000, Gen: genRectSet, Check: checkRectSet},
